@@ -214,6 +214,12 @@ def oracle(c, i):
         if got != exp:
             return (f"digest differs from the enzyme rules: missing {sorted(exp - got)!r}, "
                     f"unexpected {sorted(got - exp)!r} (sites {sites_of(c)})")
+        sites = sites_of(c)
+        exp_empty = (c["min"] <= 0 and c["mc"] >= 0 and c["max"] >= 0
+                     and (len(set(sites)) < len(sites)
+                          or (c["clip"] and c["max"] >= 1 and 1 in sites and seq[:1] == "M")))
+        if ("" in i) != exp_empty:
+            return f"empty peptide {'returned' if '' in i else 'not returned'} (sites {sites}) against C17_empty_peptide"
     # monotonicity
     for d in (dict(mc=c["mc"] + 1), dict(min=c["min"] - 1), dict(max=c["max"] + 1), dict(semi=True)):
         c2 = dict(c, **d)
